@@ -36,9 +36,12 @@ build(tsk_table_collection_t *t)
     }
     for (j = 0; j < NINDS; j++) {
         /* individual 1 has a parents list by choice: [-1], [0,-1], [2,-1] (a later row), [-1,0]; the others have [-1] */
-        static const tsk_id_t lists[4][2] = { { -1, -1 }, { 0, -1 }, { 2, -1 }, { -1, 0 } };
-        static const int lens[4] = { 1, 2, 2, 2 };
+        static const tsk_id_t lists[5][2] = { { -1, -1 }, { 0, -1 }, { 2, -1 }, { -1, 0 }, { 1, -1 } };
+        static const int lens[5] = { 1, 2, 2, 2, 2 };
         int c = (j == 1 && MODE == 1) ? sym_choice("iparents", 0, 3) : 0;
+        if (j == 2 && MODE == 2 && sym_choice("ipar2", 0, 1)) {
+            c = 4; /* individual 2 (of node 0) is a child of individual 1 (of node 1): a pedigree link inside one part */
+        }
         i_npar[j] = lens[c];
         i_par2[j][0] = lists[c][0];
         i_par2[j][1] = lists[c][1];
@@ -296,15 +299,41 @@ main_c14(void)
         }
     }
     /* individuals whose nodes straddle the parts, or parents across parts, are outside this harness */
-    for (j = 0; j < NINDS; j++) {
-        if (i_npar[j] != 1) {
+    if (i_npar[2] != 1) {
+        /* the pedigree link needs both individuals' nodes, and they must travel together */
+        if (n_ind[0] != 2 || inA[0] != inA[1] || inB[0] != inB[1]) {
             sym_assume(0);
         }
+        sym_reach("pedigree");
     }
     ret = tsk_table_collection_copy(&t, &a, 0);
     sym_assume(ret == 0);
     ret = tsk_table_collection_copy(&t, &b, 0);
     sym_assume(ret == 0);
+    if (sym_choice("bswap", 0, 1)) {
+        /* the other part lists its individuals in a different row order (legal: e.g. the result of an earlier union) */
+        tsk_individual_table_t tmp;
+        static const tsk_id_t order[NINDS] = { 0, 2, 1 }; /* new row k is old row order[k]; the permutation is its own inverse */
+        ret = tsk_individual_table_init(&tmp, 0);
+        sym_assume(ret == 0);
+        ret = tsk_individual_table_extend(&tmp, &b.individuals, NINDS, order, 0);
+        sym_assume(ret == 0);
+        tsk_individual_table_clear(&b.individuals);
+        ret = tsk_individual_table_extend(&b.individuals, &tmp, NINDS, NULL, 0);
+        sym_assume(ret == 0);
+        tsk_individual_table_free(&tmp);
+        for (j = 0; j < (int) b.individuals.parents_length; j++) {
+            if (b.individuals.parents[j] != TSK_NULL) {
+                b.individuals.parents[j] = order[b.individuals.parents[j]];
+            }
+        }
+        for (j = 0; j < NNODE; j++) {
+            if (b.nodes.individual[j] != TSK_NULL) {
+                b.nodes.individual[j] = order[b.nodes.individual[j]];
+            }
+        }
+        sym_reach("individuals-permuted");
+    }
     ret = tsk_table_collection_subset(&a, la, (tsk_size_t) na, 0);
     sym_assert(ret == 0, "subset A");
     ret = tsk_table_collection_subset(&b, lb, (tsk_size_t) nb, 0);
@@ -329,6 +358,31 @@ main_c14(void)
             "same number of sites, individuals and populations");
         for (j = 0; j < (int) a.sites.num_rows; j++) {
             sym_assert(a.sites.position[j] == canon.sites.position[j], "same sites");
+        }
+        /* individuals are identified by their metadata tag: same flags and the same parents (by tag) as in the original */
+        for (j = 0; j < (int) a.individuals.num_rows; j++) {
+            tsk_individual_t ri, ro;
+            int q, k2, found = 0;
+            tsk_individual_table_get_row(&a.individuals, j, &ri);
+            for (k2 = 0; k2 < (int) canon.individuals.num_rows; k2++) {
+                tsk_individual_table_get_row(&canon.individuals, k2, &ro);
+                if (ro.metadata_length == 1 && ri.metadata_length == 1 && ro.metadata[0] == ri.metadata[0]) {
+                    found = 1;
+                    break;
+                }
+            }
+            sym_assert(found, "every individual of the union is an individual of the original");
+            if (found) {
+                sym_assert(ri.flags == ro.flags && ri.parents_length == ro.parents_length, "individual flags and number of parents survive the round trip");
+                for (q = 0; q < (int) ri.parents_length && q < (int) ro.parents_length; q++) {
+                    tsk_id_t pi = ri.parents[q], po = ro.parents[q];
+                    sym_assert((pi == TSK_NULL) == (po == TSK_NULL), "null parents stay null, others stay linked");
+                    if (pi != TSK_NULL && po != TSK_NULL && pi < (tsk_id_t) a.individuals.num_rows && po < (tsk_id_t) canon.individuals.num_rows) {
+                        sym_assert(a.individuals.metadata[a.individuals.metadata_offset[pi]] == canon.individuals.metadata[canon.individuals.metadata_offset[po]],
+                            "individual parents point at the same individuals as in the original");
+                    }
+                }
+            }
         }
         tsk_table_collection_free(&canon);
         sym_reach("rejoined");
